@@ -411,12 +411,21 @@ def run_C06(tier, seed):
     mc_quantity(v, tier)
     evs, combos, unit_pairs = gen_binops(tier, rnd)
     laws = gen_laws(tier, rnd)
-    allev = evs + laws
+    # operations on objects with a HISTORY (converted in place, results of earlier operations): straight-line programs, of which
+    # C06 judges the outcome clauses (kind / SI magnitude / error class); validity of live objects is C19's statement
+    progs = inplace_then_arith_programs(tier, rnd)
+    for i in range(120 if tier == 'quick' else 2000):
+        progs.append(exec_random_program(f'pq{i}', rnd, 7, extreme=False))
+    allev = evs + laws + progs
     res = validate('Trace_Quantity', allev)
     v.states += res.states; v.transitions += res.transitions
     v.traces = len(allev); v.evaluations = len(allev)
     byid = {e['id']: e for e in allev}
-    _collect(v, res, byid)
+    res_np = type('R', (), {'fails': {k: f for k, f in res.fails.items() if byid[k]['ev'] != 'prog'}})()
+    _collect(v, res_np, byid)
+    res_p = type('R', (), {'fails': {k: f for k, f in res.fails.items() if byid[k]['ev'] == 'prog'}})()
+    _collect(v, res_p, byid, only=('Outcome_',))
+    v.extra['program_steps'] = sum(len(p['steps']) for p in progs)
     v.distinct = len({(e['op'], e['a']['kind'], e['a']['unit'], e['a']['val'], e['b']['kind'], e['b']['unit'], e['b']['val']) for e in evs}) + len(laws)
     v.rule = ('all ordered pairs of (13 kinds + int + float) x {+,-,*,/} (enumerated from the table TLC exports from Units.tla); unit choices: '
               + ('every pair for defined operations (capped at 40 sampled pairs per combination), two for TypeError combinations' if tier == 'quick'
@@ -427,6 +436,29 @@ def run_C06(tier, seed):
     v.sample(evs[7]); v.sample(evs[len(evs) // 2]); v.sample(laws[0])
     v.assumptions = ['bool operands are ints (Python semantics)', 'TypeError is always an allowed outcome except for the operations the documentation names (Units!MustReturn)']
     return finish(v, MATCHERS)
+
+
+def inplace_then_arith_programs(tier, rnd):
+    """an object converted IN PLACE and then used as the left / right operand of every operator (its own state must have followed)"""
+    P = []
+    k = 0
+    for kind in spectab.kinds():
+        us = spectab.units_of(kind)
+        pairs = [(a, b) for a in us for b in us if a != b]
+        if tier == 'quick' and len(pairs) > 6:
+            pairs = rnd.sample(pairs, 6)
+        for u1, u2 in pairs:
+            k += 1
+            v = 3.0
+            P.append(run_program(f'pi{k}', [
+                {'op': 'new', 'kind': kind, 'unit': u1, 'val': v}, {'op': 'new', 'kind': kind, 'unit': u1, 'val': 1.25},
+                {'op': 'to_inplace', 'a': {'slot': 1}, 'unit': u2},
+                {'op': '*', 'a': {'slot': 1}, 'b': {'slot': 0, 'pynum': 2}}, {'op': '*', 'a': {'slot': 0, 'pynum': 0.5}, 'b': {'slot': 1}},
+                {'op': '/', 'a': {'slot': 1}, 'b': {'slot': 0, 'pynum': 4}},
+                {'op': '+', 'a': {'slot': 1}, 'b': {'slot': 2}}, {'op': '+', 'a': {'slot': 2}, 'b': {'slot': 1}},
+                {'op': '-', 'a': {'slot': 1}, 'b': {'slot': 2}}, {'op': '/', 'a': {'slot': 1}, 'b': {'slot': 2}}, {'op': '/', 'a': {'slot': 2}, 'b': {'slot': 1}},
+                {'op': 'neg', 'a': {'slot': 1}}, {'op': 'abs', 'a': {'slot': 1}}, {'op': 'to', 'a': {'slot': 1}, 'unit': u1}]))
+    return P
 
 
 def gen_programs(tier, rnd):
